@@ -58,7 +58,19 @@ class Ctx:
         self.obs.append(Ob(rule, key, True, _loc(node_or_loc), detail, nontrivial))
 
     def bad(self, rule, key, node_or_loc, detail=''):
+        by = getattr(self, 'deferred', {}).get(rule)
+        if by:
+            # the behaviour this structural rule is about has been decided by evaluation: a mismatch
+            # with the pattern is another way of writing it
+            self.undecided(rule, key, node_or_loc, 'differs from the structural pattern (%s); behaviour decided by evaluation (%s)' % (detail[:160], by))
+            return
         self.obs.append(Ob(rule, key, False, _loc(node_or_loc), detail))
+
+    def defer(self, rules, by):
+        if not hasattr(self, 'deferred'):
+            self.deferred = {}
+        for r in rules:
+            self.deferred[r] = by
 
     def check(self, cond, rule, key, node_or_loc, ok_detail='', bad_detail='', nontrivial=True):
         if cond:
